@@ -92,7 +92,13 @@ var c03Entries = []entry{
 
 // c03Run runs every entry point (plus Binary.Skip / BytesSkipDecoder for the given types) on b at both arena placements.
 func c03Run(cs *drv.Case, b []byte, skipTypes []byte, allocCap uint32) {
+	// Entry points that allocate what the input declares are only given inputs whose declared sizes
+	// are small or backed by the input itself. Struct-shaped entry points meet size fields in the
+	// order of the grammar oracle (MaxAsk: every size read as unsigned, x8 / x16 per element);
+	// the message entry point is judged by the conservative scan of every 4-byte window.
 	win := ref.MaxDeclaredWindow(b)
+	prS := ref.Parse(b, ref.STRUCT)
+	structOK := prS.MaxAsk <= 16*uint64(allocCap) || prS.MaxAsk <= 16*uint64(len(b))
 	calls := int64(0)
 	for where := 0; where < 2; where++ {
 		in := place(b, where)
@@ -101,7 +107,7 @@ func c03Run(cs *drv.Case, b []byte, skipTypes []byte, allocCap uint32) {
 			e := &c03Entries[i]
 			// entry points that allocate what the input declares: capped, unless the declared count is
 			// backed by the input itself (then the allocation is proportional to the input size)
-			if e.allocs && win > allocCap && int(win) > len(b) {
+			if e.allocs && ((e.name == "UnmarshalFastMsg(BaseResp)" && win > allocCap && int(win) > len(b)) || (e.name != "UnmarshalFastMsg(BaseResp)" && !structOK)) {
 				cs.C.Obs("alloc-capped calls", 1)
 				continue
 			}
@@ -343,6 +349,9 @@ func monC03(c *drv.Ctx) {
 
 	// (3) grammar alphabet, bounded-exhaustive
 	maxLen := int(c.Pick(4, 6))
+	if c.Slow() {
+		maxLen = 4
+	}
 	for n := 3; n <= maxLen; n++ {
 		n := n
 		total := gen.Pow(int64(len(gen.GrammarAlphabet)), n)
